@@ -85,6 +85,32 @@ def wfLoop (t : LoopTable) : Bool :=
   && [Ev.backward, .divGrad, .clip, .optStep, .zeroGrad, .schedStep].all (fun e => evs.count e == 1)
   && t.all (fun (e, gs) => !(e == .backward || e == .schedStep) || gs.isEmpty)
 
+/-- how an engine class handles the loss in `_do_iteration` / `forward_function` (one row per class, read from
+`direct/nn/**` by the translator) -/
+structure EngineRow where
+  name : String
+  definesDoIteration : Bool   -- else it only supplies `forward_function` to `MRIModelEngine._do_iteration`
+  nBackward : Nat             -- number of `.backward(` call sites
+  guarded : Bool              -- every one under `if self.model.training`
+  scaled : Bool               -- every one on `self._scaler.scale(loss)`
+  inLoop : Bool               -- some `.backward(` inside a `for`
+  retainGraph : Bool          -- some `.backward(retain_graph=True)`
+  mentionsGradSteps : Bool    -- `gradient_steps` appears (the loss must NOT be divided: the loop divides the gradients)
+  touchesOptimizer : Bool     -- `zero_grad` / `optimizer.step` / `_scaler.step` / `_scaler.update` inside the engine
+  detached : Bool             -- `.detach()` applied to what is back-propagated
+deriving DecidableEq, Repr
+
+/-- "`_do_iteration` only *adds* the gradient of its batch to `.grad`": back-propagates the (scaled) loss when training,
+never divides by `gradient_steps`, never zeroes gradients or steps the optimiser, never detaches the loss; engines that
+only give a `forward_function` do none of these things themselves -/
+def wfEngine (r : EngineRow) : Bool :=
+  if r.definesDoIteration then
+    decide (r.nBackward ≥ 1) && r.guarded && r.scaled && !r.mentionsGradSteps && !r.touchesOptimizer && !r.detached
+  else r.nBackward == 0 && !r.mentionsGradSteps && !r.touchesOptimizer
+
+def wfEngines (rows : List EngineRow) : Bool :=
+  rows.all wfEngine && rows.any (fun r => r.name == "MRIModelEngine" && r.definesDoIteration)
+
 def evalGuard (cfg : Cfg) (it : Nat) : Guard → Bool
   | .stepBranch => (it + 1) % cfg.k == 0
   | .kGt1 => decide (cfg.k > 1)
@@ -126,6 +152,19 @@ def runRangeT (t : LoopTable) (ops : Ops P O G B L) (lrAt : Nat → L) (cfg : Cf
 def runRange (ops : Ops P O G B L) (lrAt : Nat → L) (cfg : Cfg) (batch : Nat → B)
     (s : St P O G Sc) (a n : Nat) : St P O G Sc :=
   runRangeT loopTable ops lrAt cfg batch s a n
+
+/-- the OOM recovery branch of the loop (`RuntimeError("… out of memory …")` from `_do_iteration`, fewer than three in a
+row): `optimizer.zero_grad(); continue` — the iteration index is consumed, but there is no optimiser step, no
+`lr_scheduler.step()`, and whatever was accumulated in the current window is thrown away -/
+def oomSkip (ops : Ops P O G B L) (s : St P O G Sc) : St P O G Sc := { s with grad := ops.zero }
+
+/-- a run in which the iterations `i` with `oom i` hit the OOM recovery branch -/
+def runRangeO (ops : Ops P O G B L) (lrAt : Nat → L) (cfg : Cfg) (batch : Nat → B) (oom : Nat → Bool)
+    (s : St P O G Sc) (a : Nat) : Nat → St P O G Sc
+  | 0 => s
+  | n + 1 =>
+    let s' := runRangeO ops lrAt cfg batch oom s a n
+    if oom (a + n) then oomSkip ops s' else iter ops lrAt cfg s' (a + n) (batch (a + n))
 
 /-- the gradient accumulated in `.grad` right after `backward` -/
 def accum (ops : Ops P O G B L) (s : St P O G Sc) (b : B) : G := ops.add s.grad (ops.grad s.theta b)
@@ -347,6 +386,30 @@ def ops (d : Nat) (mu : Rat) : Ops Vec (Option Vec) Vec Batch Rat where
   divk k g := vscale (1 / (k : Rat)) g
   clip g := g
   opt := sgd mu
+
+/-- the toy with an **additional model** in `self.models`: parameters `w ++ v` (`d` each), prediction
+`x·w + x·v`, so both groups get the same gradient; `training_loop` divides only `self.model.parameters()` (the first
+`d` components) by `gradient_steps` -/
+def gradAux (d : Nat) (θ : Vec) (b : Batch) : Vec :=
+  let g := b.foldl (fun g (x, y) => vadd g (vscale (sign (dot x (θ.take d) + dot x (θ.drop d) - y)) x)) (List.replicate d 0)
+  g ++ g
+
+def opsAux (d : Nat) (mu : Rat) : Ops Vec (Option Vec) Vec Batch Rat where
+  grad := gradAux d
+  add := vadd
+  zero := List.replicate (2 * d) 0
+  divk k g := vscale (1 / (k : Rat)) (g.take d) ++ g.drop d
+  clip g := g
+  opt := sgd mu
+
+/-- Int instance with a main and an additional parameter group (same gradient for both): only the main group is divided -/
+def intOps2 : Ops (Int × Int) Unit (Int × Int) Int Int where
+  grad _ b := (b, b)
+  add a b := (a.1 + b.1, a.2 + b.2)
+  zero := (0, 0)
+  divk k g := (g.1 / (k : Int), g.2)
+  clip g := g
+  opt lr w _ g := ((w.1 - lr * g.1, w.2 - lr * g.2), ())
 
 /-- Int instance for the kernel-evaluated regression witnesses:
 `θ' = θ − lr·g`, `∇loss(θ, b) = b` (the batch is its own gradient), `div_` exact on multiples of `k` -/
